@@ -1,8 +1,8 @@
 CONSTANTS
   Servers <- S2
-  Idents <- Id2x
+  Idents <- Id2
   Home <- HomeAll
-  Flows <- F1
+  Flows <- F2
   FlowDef <- FD
   CPorts <- P1
   NPorts = 4
@@ -10,14 +10,14 @@ CONSTANTS
   A = 6
   M = 8
   I = 2
-  B = 1
+  B = 0
   Deltas <- D3
   OtherKinds <- NoOther
   Strict = FALSE
-  ExK = 1
+  ExK = 4
   D = 1
 INIT Init
 NEXT NextL
 VIEW viewMC
-ACTION_CONSTRAINT ExportT
+ACTION_CONSTRAINT ExportS
 CHECK_DEADLOCK FALSE
